@@ -485,6 +485,33 @@ class ExecS(Exec):
                 self.oblige(f"ghost_assert.{lab}", "ghost", st, g, s)
                 st.pc.append(g)
                 return [Outcome("normal", st)]
+            if f == "__inst__":
+                # instance of a universally quantified precondition: __inst__('label', value_for_var1, ...)
+                lab = s.value.args[0].value
+                req = dict(self.cx.c._requires).get(lab)
+                if req is None:
+                    raise AttachError(f"__inst__: no precondition labelled {lab}")
+                qn = ast.parse(req.strip(), mode="eval").body
+                if not (isinstance(qn, ast.Call) and isinstance(qn.func, ast.Name) and qn.func.id in ("forall", "forallp")):
+                    raise AttachError(f"__inst__: precondition {lab} is not a single forall")
+                vals = [zint(self.ev(a, st, spec=True)) for a in s.value.args[1:]]
+                if qn.func.id == "forall":
+                    triples = [(qn.args[0].id, qn.args[1], qn.args[2])]
+                    body = qn.args[3]
+                else:
+                    nv = (len(qn.args) - 2) // 3
+                    triples = [(qn.args[3 * k_].id, qn.args[3 * k_ + 1], qn.args[3 * k_ + 2]) for k_ in range(nv)]
+                    body = qn.args[-2]
+                if len(vals) != len(triples):
+                    raise AttachError(f"__inst__: {lab} binds {len(triples)} variables")
+                b = {}
+                rng = []
+                ent = self.cx.entry
+                for (nm, lo, hi), v in zip(triples, vals):
+                    rng += [zint(self.ev(lo, ent, True, b)) <= v, v < zint(self.ev(hi, ent, True, b))]
+                    b[nm] = v
+                st.pc.append(z3.Implies(z3.And(*rng), boolify(self.ev(body, ent, True, b))))
+                return [Outcome("normal", st)]
             if f == "__define__":
                 nm = s.value.args[0].value
                 v = self.ev(s.value.args[1], st, spec=True)
